@@ -88,7 +88,7 @@ def analyse(fn):
     tables = {}
     for st in fn.body:
         if isinstance(st, ast.Assign) and isinstance(st.targets[0], ast.Name):
-            s = _sentinel(st.value)
+            s = _sentinel(st.value, fn)
             if s is not None:
                 tables[st.targets[0].id] = (s, st.lineno)
     slot = [t for t in tables if any(isinstance(n, ast.Subscript) and isinstance(n.ctx, ast.Store) and unparse(n).replace(" ", "") == "%s[%s,%s]" % (t, el, li) for n in ast.walk(inner))]
